@@ -267,6 +267,8 @@ def run(ck: Check) -> None:
             finally:
                 os.close(w_)
         elif cond.startswith("dev-full"):
+            if not os.path.exists("/dev/full"):
+                return 1, "no /dev/full here"
             with open("/dev/full", "wb") as f:
                 p = subprocess.run(cmd, env=env, cwd=d, stdout=f, stderr=subprocess.PIPE, timeout=120)
         else:   # closed at start-up: the interpreter has no standard output object
@@ -463,7 +465,11 @@ def run(ck: Check) -> None:
         rf, kf = os.path.join(d, "tty-repodata.json"), os.path.join(d, "tty-key.txt")
         open(rf, "wb").write(gen.oracle_bytes(good_doc))
         open(kf, "w").write(k.seed.hex())
-        master, slave = pty.openpty()
+        try:
+            master, slave = pty.openpty()
+        except OSError:
+            ck.count("sign-from-terminal:no-pty-available")
+            break
         try:
             os.write(master, typed)
             env = dict(os.environ, PYTHONPATH=REPO, PYTHONDONTWRITEBYTECODE="1", PYTHONIOENCODING="utf-8")
